@@ -1,27 +1,47 @@
 """C16 - a progress bar always shows a truthful, well-formed frame and ends at 100%."""
 import itertools, os, re
 from fractions import Fraction
-from hutil import S, unS
+from hutil import S, unS, err
 import termemu
 
 MODEL = "C16"
 PROP_FILES = ["Props/C16.v"]
-WIDTH = 100
-RULE = ("call sequences over {start(), start(max'), advance(1/3/-2/max), set_progress, display, clear, finish} with the clock advanced by "
-        "{0, 10, 50, 200, 2000} ms before each call (virtual clock of exact fractions) x maxima {0,1,3,10,50,200} x bar widths "
-        "{1,2,10,15,28,30} x formats (built-in per verbosity, two custom ones incl. a two-line format and %message%) x "
-        "min-interval {0.1, 0, 0.05} x ANSI / plain / quiet outputs: all sequences up to length 3 (quick) / 4 (thorough) for a base "
-        "set-up, random sequences up to length 60 over everything; every stream write with its clock value is compared and replayed "
-        "on a terminal emulator; non-trivial = >= 2 frames; distinct by case")
-TRUSTED = ["virtual clock: time.time replaced by exact fractions, constant during one call; the section-output kind of progress bar "
-           "is outside the model (covered by C15 for the section itself)"]
-ASSUMPTIONS = ["bar / progress characters are the 1-cell defaults; frames are shorter than the terminal width for the ANSI line clause"]
+WIDTH = 160          # terminal width of the ANSI / plain / quiet cases (every frame fits: ASSUMPTIONS)
+NARROW = 30          # second width of the section cases: the frame wraps inside its section
+RULE = ("call sequences over {start(), start(max'), advance(1/3/-2/0/max//4), set_progress(0/1/max-1/max/max+3/7), display, clear, "
+        "finish, set_message(plain short / plain long / tagged short / tagged long / empty), write_line on the section below} with "
+        "the clock advanced by {0, 10, 50, 200, 2000} ms before each call (virtual clock of exact fractions) x maxima "
+        "{0,1,3,10,50,200} x bar widths 1..40 (bars without maximum too: their offset is double arithmetic, modelled bit for bit) x "
+        "formats (built-in per verbosity; custom: one line with %message%, two lines with %message% / %elapsed% / %estimated%, one "
+        "line with %elapsed% %remaining% %estimated%, two lines without a maximum) x min-interval {0.1, 0, 0.05} x max-interval "
+        "{1, 0.5} x set_redraw_frequency {-, 1, 2, 5} x progress character {'>', tagged '>'} x ANSI / plain / section (a second section below, width 160 or 30) / quiet "
+        "outputs (and quiet+plain, plain section, quiet section): all sequences up to length 3 (quick) / 4 (thorough) for six base "
+        "set-ups (ANSI, plain, no maximum with width 7, section with redraw frequency 2 and writes below, verbose custom format "
+        "with tagged messages and min-interval 0.05, plain without maximum and min-interval 0) under uniform and mixed timings, "
+        "random sequences up to length 60 over everything; every stream write with its clock value is compared and replayed on "
+        "a terminal emulator (after every call on a section output); non-trivial = >= 2 frames; distinct by case")
+TRUSTED = ["virtual clock: time.time replaced by exact fractions, constant during one call; Base/Term.v as the terminal; pastel is "
+           "modelled by Model/Markup.v and SectionOutput by Model/Section.v (tied by C11 / C15 and by this run)"]
+ASSUMPTIONS = ["the bar and empty-bar characters are the 1-cell defaults, the progress character is one visible cell ('>', also inside a tag); messages are one line of good markup (no line break, every tag "
+               "closed); on a non-section ANSI output every frame is shorter than the terminal width (the line clause); "
+               "%estimated% / %remaining% without a maximum raise the documented RuntimeError (model and code agree on it)"]
 
 DTS = [0, 10, 50, 200, 2000]
+# pieces: [0, text] literal, 1 current, 2 max, 3 bar, [4, spec] percent, [5, spec] elapsed, [6, spec] estimated, 7 message,
+# [8, spec] remaining; spec = [] | [0, n] right-justified | [1, n] left-justified
 CUSTOM = {
     "c1": [[0, " "], [1], [0, "/"], [2], [0, " ["], [3], [0, "] "], [4, [0, 3]], [0, "% "], [7]],
     "c2": [[7], [0, "\n "], [1], [0, " ["], [3], [0, "] "], [5, [0, 6]], [0, "/"], [6, [1, 6]]],
+    "c3": [[7], [0, " "], [1], [0, "/"], [2], [0, " ["], [3], [0, "] "], [4, []], [0, "% "], [5, []], [0, "|"], [8, [0, 9]], [0, "|"],
+           [6, []]],
+    "c4": [[0, " "], [1], [0, " ["], [3], [0, "]\n "], [7], [0, " "], [5, []]],
 }
+NEEDS_MAX = ("c2", "c3")
+NAMES = {1: "current", 2: "max", 3: "bar", 4: "percent", 5: "elapsed", 6: "estimated", 7: "message", 8: "remaining"}
+MSGS = ["working", "a longer message here", "<info>ok</info>", "<info>a considerably longer tagged message</info> <b>done</b>",
+        "p<fg=red>q</>r", ""]
+PCHARS = ["<info>></info>", "<b>></b>"]        # a progress character carrying a tag: one visible cell
+BELOW = ["below", "<info>two</info>\nlines", "a line of the section below that is longer than thirty cells"]
 
 
 def fmt_string(pieces):
@@ -30,82 +50,162 @@ def fmt_string(pieces):
         if p[0] == 0:
             out += p[1]
         else:
-            name = {1: "current", 2: "max", 3: "bar", 4: "percent", 5: "elapsed", 6: "estimated", 7: "message"}[p[0]]
             sp = ""
             if len(p) > 1 and p[1]:
                 sp = ":%s%ds" % ("-" if p[1][0] == 1 else "", p[1][1])
-            out += "%" + name + sp + "%"
+            out += "%" + NAMES[p[0]] + sp + "%"
+    return out
+
+
+_PH = re.compile(r"(?i)%([a-z\-_]+)(?::([^%]+))?%")
+
+
+def parse_fmt(s):
+    """a format string -> pieces (the placeholders the way ProgressBar.display finds them)"""
+    inv = dict((v, k) for k, v in NAMES.items())
+    out, pos = [], 0
+    for m in _PH.finditer(s):
+        if m.group(1) not in inv:
+            continue
+        if m.start() > pos:
+            out.append([0, s[pos:m.start()]])
+        out.append([inv[m.group(1)]])
+        pos = m.end()
+    if pos < len(s):
+        out.append([0, s[pos:]])
     return out
 
 
 OPS = [[0, None], [0, 5], [1, 1], [1, 3], [1, -2], [2, 7], [3], [4], [5], [1, 0], [0, 0]]
 
 
-def base_cfg():
-    return {"kind": "ansi", "verb": 0, "max": 10, "bw": 10, "min": 0.1, "fmt": None, "msg": None}
+def cfg_of(**kw):
+    c = {"kind": "ansi", "verb": 0, "max": 10, "bw": 10, "min": 0.1, "fmt": None, "msg": None, "maxs": 1, "rf": None, "w": WIDTH,
+         "below": None, "pc": ">"}
+    c.update(kw)
+    return c
+
+
+def norm_cfg(cfg):
+    """cases written before the section kind / the redraw settings existed"""
+    return cfg_of(**cfg)
+
+
+def set_values(mx):
+    return sorted(set([0, 1, max(0, mx - 1), mx, mx + 3]))
+
+
+def exhaustive_setups():
+    """(configuration, alphabet) pairs of the explicit exploration"""
+    a = lambda *more: [list(o) for o in OPS] + [list(o) for o in more]
+    small = [[0, None], [0, 5], [1, 1], [1, 3], [1, -2], [3], [4], [5]]
+    return [
+        (cfg_of(), a()),
+        (cfg_of(kind="plain", max=3), a()),
+        (cfg_of(max=0, bw=7), a()),
+        (cfg_of(kind="section", max=3, bw=5, min=0, rf=2, below="below"), small + [[2, 3], [2, 6], [7, "x"]]),
+        (cfg_of(verb=1, fmt="c1", msg=MSGS[1], min=0.05, pc=PCHARS[0]), small + [[2, 9], [2, 0], [6, MSGS[2]], [6, MSGS[3]]]),
+        (cfg_of(kind="plain", max=0, bw=15, min=0), small + [[2, 1], [0, 0], [1, 0]]),
+    ]
 
 
 def gen(rng, tier, info):
     depth = {"quick": 3, "thorough": 4, "search": 2}[tier]
-    nrand = {"quick": 6000, "thorough": 60000, "search": 2000}[tier]
+    nrand = {"quick": 5000, "thorough": 60000, "search": 2000}[tier]
     cases = []
-    for kind in ("ansi", "plain"):
-        for mx in (0, 3, 10):
-            cfg = dict(base_cfg(), kind=kind, max=mx, bw=15 if mx == 0 else 10)
-            for k in range(1, depth + 1):
-                for seq in itertools.product(range(len(OPS)), repeat=k):
-                    for dts in ([0] * k, [200] * k, [50] * k):
-                        cases.append({"cfg": cfg, "ops": [[d, OPS[i]] for d, i in zip(dts, seq)]})
+    for cfg, al in exhaustive_setups():
+        for k in range(1, depth + 1):
+            for seq in itertools.product(range(len(al)), repeat=k):
+                for dts in ([0] * k, [200] * k, [50, 2000, 10, 0][:k]):
+                    if k == 1 and dts != [0]:
+                        continue
+                    cases.append({"cfg": cfg, "ops": [[d, list(al[i])] for d, i in zip(dts, seq)]})
     n_ex = len(cases)
     for _ in range(nrand):
-        kind = rng.choice(["ansi", "ansi", "plain", "quiet"])
+        kind = rng.choice(["ansi", "ansi", "ansi", "plain", "plain", "section", "section", "section", "quiet",
+                           rng.choice(["quietplain", "sectionplain", "quietsection"])])
         mx = rng.choice([0, 1, 3, 10, 50, 200])
-        mn = rng.choice([0.1, 0.1, 0, 0.05])
-        # the no-maximum bar offset is float arithmetic in the code unless the width is a multiple of 15
-        bw = rng.choice([15, 30]) if mx == 0 else rng.choice([1, 2, 10, 15, 28, 30])
-        fmt = rng.choice([None, None, "c1", "c2"])
-        if fmt == "c2" and mx == 0:
-            fmt = "c1"     # %estimated% raises without a maximum (documented RuntimeError)
-        cfg = {"kind": kind, "verb": rng.choice([0, 0, 1, 2, 4]), "max": mx, "bw": bw, "min": mn, "fmt": fmt,
-               "msg": rng.choice([None, "working", "a longer message here"])}
-        if cfg["verb"] in (2, 4) and mx == 0:
-            pass
+        fmt = rng.choice([None, None, None, "c1", "c2", "c3", "c4"])
+        if fmt in NEEDS_MAX and mx == 0 and rng.random() < 0.9:
+            fmt = "c4"     # %estimated% / %remaining% raise without a maximum (documented RuntimeError): kept rare
+        sec = kind in ("section", "quietsection")
+        cfg = cfg_of(kind=kind, verb=rng.choice([0, 0, 1, 2, 4]), max=mx, bw=rng.randint(1, 40), min=rng.choice([0.1, 0.1, 0, 0.05]),
+                     fmt=fmt, msg=rng.choice([None, None] + MSGS), maxs=rng.choice([1, 1, 1, 0.5]), rf=rng.choice([None, None, 1, 2, 5]),
+                     w=rng.choice([WIDTH, WIDTH, NARROW]) if sec else WIDTH,
+                     below=rng.choice([None] + BELOW) if kind.startswith("section") or sec else None,
+                     pc=rng.choice([">"] * 5 + PCHARS))
+        pool = [list(o) for o in OPS] + [[1, 1]] * 6 + [[1, max(1, mx // 4)]] + [[2, k] for k in set_values(mx)] \
+            + [[6, m] for m in rng.sample(MSGS, 2)]
+        if sec:
+            pool += [[7, rng.choice(BELOW)], [7, "y"]]
         ops = []
         for _ in range(rng.randint(2, 60)):
-            o = rng.choice(OPS + [[1, 1]] * 6 + [[1, max(1, mx // 4)]])
-            if o[0] == 0 and o[1] == 0 and fmt == "c2":
+            o = rng.choice(pool)
+            if o[0] == 0 and o[1] == 0 and fmt in NEEDS_MAX and rng.random() < 0.9:
                 continue
             ops.append([rng.choice(DTS), list(o)])
         cases.append({"cfg": cfg, "ops": ops})
     info["exhaustive"] = True
-    info["distribution"] = {"exhaustive": n_ex, "random": nrand, "depth": depth}
+    info["distribution"] = {"exhaustive": n_ex, "random": nrand, "depth": depth, "setups": len(exhaustive_setups())}
     return cases
 
 
 T0 = 1000000
 
 
+def sty(tag=None, fg=None, bg=None, attrs=0):
+    return {"tag": tag, "fg": fg, "bg": bg, "attrs": attrs}
+
+
+def default_set():
+    """clikit's DefaultStyleSet (attribute bits: bold italic dark underlined blinking inverse hidden)"""
+    return [sty("info", "green"), sty("comment", "cyan"), sty("question", "blue"), sty("error", "red", None, 1), sty("b", None, None, 1),
+            sty("u", None, None, 8), sty("c1", "cyan"), sty("c2", "yellow")]
+
+
+def w_style(st):
+    o = lambda v: [] if v is None else [S(v)]
+    return [o(st["tag"]), o(st["fg"]), o(st["bg"])] + [st["attrs"] >> i & 1 for i in range(7)]
+
+
+def is_ansi(kind):
+    return kind in ("ansi", "quiet", "section", "quietsection")
+
+
+def is_quiet(kind):
+    return kind.startswith("quiet")
+
+
+def is_section(kind):
+    return kind in ("section", "sectionplain", "quietsection")
+
+
 def wire(c):
-    cfg = c["cfg"]
-    num, den = Fraction(cfg["min"]).numerator, Fraction(cfg["min"]).denominator
+    cfg = norm_cfg(c["cfg"])
+    fr = lambda x: [Fraction(x).numerator, Fraction(x).denominator]
     ops = []
     for dt, o in c["ops"]:
         if o[0] == 0:
             ops.append([dt, [0, [] if o[1] is None else [o[1]]]])
         elif o[0] in (1, 2):
             ops.append([dt, [o[0], o[1]]])
+        elif o[0] in (6, 7):
+            ops.append([dt, [o[0], S(o[1])]])
         else:
             ops.append([dt, [o[0]]])
     custom = []
     if cfg["fmt"]:
         custom = [[[p[0], S(p[1])] if p[0] == 0 else ([p[0], p[1]] if len(p) > 1 else [p[0]]) for p in CUSTOM[cfg["fmt"]]]]
-    return [int(cfg["kind"] != "plain" and cfg["kind"] != "quietplain"), int(cfg["kind"].startswith("quiet")), cfg["verb"], cfg["max"],
-            cfg["bw"], num, den, custom, [] if cfg["msg"] is None else [S(cfg["msg"])], T0, ops, WIDTH]
+    return [int(is_ansi(cfg["kind"])), int(is_quiet(cfg["kind"])), int(is_section(cfg["kind"])), cfg["verb"], cfg["max"], cfg["bw"]] \
+        + fr(cfg["min"]) + fr(cfg["maxs"]) + [[] if cfg["rf"] is None else [cfg["rf"]], custom,
+                                               [] if cfg["msg"] is None else [S(cfg["msg"])], T0, ops, cfg["w"],
+                                               [w_style(s) for s in default_set()], [] if cfg["below"] is None else [S(cfg["below"])],
+                                               S(cfg["pc"])]
 
 
 def describe(c):
-    names = {0: "start", 1: "advance", 2: "set_progress", 3: "display", 4: "clear", 5: "finish"}
-    return "%r; calls: %s" % (c["cfg"], "; ".join("+%dms %s(%s)" % (dt, names[o[0]], "" if len(o) < 2 or o[1] is None else o[1])
+    names = {0: "start", 1: "advance", 2: "set_progress", 3: "display", 4: "clear", 5: "finish", 6: "set_message", 7: "below.write_line"}
+    return "%r; calls: %s" % (c["cfg"], "; ".join("+%dms %s(%s)" % (dt, names[o[0]], "" if len(o) < 2 or o[1] is None else repr(o[1]))
                                                   for dt, o in c["ops"]))
 
 
@@ -114,7 +214,8 @@ class Clock(object):
 
 
 def run_impl(c):
-    os.environ["COLUMNS"] = str(WIDTH)
+    cfg = norm_cfg(c["cfg"])
+    os.environ["COLUMNS"] = str(cfg["w"])
     import time
     real = time.time
     time.time = lambda: Fraction(Clock.now, 1000)
@@ -122,23 +223,38 @@ def run_impl(c):
         from clikit.io import BufferedIO
         from clikit.formatter import AnsiFormatter, PlainFormatter
         from clikit.ui.components import ProgressBar
-        cfg = c["cfg"]
         Clock.now = T0
-        ansi = cfg["kind"] in ("ansi", "quiet")
-        io = BufferedIO(formatter=AnsiFormatter(forced=True) if ansi else PlainFormatter())
-        if cfg["kind"].startswith("quiet"):
-            io.set_quiet(True)
+        kind = cfg["kind"]
+        io = BufferedIO(formatter=AnsiFormatter(forced=True) if is_ansi(kind) else PlainFormatter())
+        secs = []
+        target = io
+        if is_section(kind):
+            secs = [io.error_output.section(), io.error_output.section()]
+            if cfg["below"] is not None:
+                secs[1].write_line(cfg["below"])
+            target = secs[0]
+        gate = secs[0] if secs else io
+        if is_quiet(kind):
+            gate.set_quiet(True)
         if cfg["verb"]:
-            io.set_verbosity(cfg["verb"])
-        bar = ProgressBar(io, cfg["max"], cfg["min"])
+            gate.set_verbosity(cfg["verb"])
+        init = io.fetch_error()
+        bar = ProgressBar(target, cfg["max"], cfg["min"])
         bar.set_bar_width(cfg["bw"])
+        if cfg["pc"] != ">":
+            bar.set_progress_character(cfg["pc"])
+        if cfg["maxs"] != 1:
+            bar.max_seconds_between_redraws(cfg["maxs"])
+        if cfg["rf"] is not None:
+            bar.set_redraw_frequency(cfg["rf"])
         if cfg["fmt"]:
             bar.set_format(fmt_string(CUSTOM[cfg["fmt"]]))
         if cfg["msg"] is not None:
             bar.set_message(cfg["msg"])
         trace = []
-        getters_ok = True
-        data_all = ""
+        t = termemu.Term(cfg["w"])
+        t.feed(init)
+        per_op = []      # section outputs: the screen and the bar section's content after every call
         for dt, o in c["ops"]:
             Clock.now += dt
             before = io.fetch_error()
@@ -153,59 +269,147 @@ def run_impl(c):
                     bar.display()
                 elif o[0] == 4:
                     bar.clear()
-                else:
+                elif o[0] == 5:
                     bar.finish()
+                elif o[0] == 6:
+                    bar.set_message(o[1])
+                elif secs:
+                    secs[1].write_line(o[1])
             except Exception as e:
-                return ["EXC", type(e).__name__, str(e)[:80]]
+                return ["EXC", type(e).__name__, str(e)[:80], err(e)]
             delta = io.fetch_error()[len(before):]
-            data_all += delta
+            t.feed(delta)
             trace.append([Clock.now, termemu.tokens(delta)])
-            mxs = bar.get_max_steps()
-            getters_ok = getters_ok and (bar.get_progress_percent() == ((bar.get_progress() / mxs) if mxs else 0.0))
-        t = termemu.Term(WIDTH)
-        t.feed(data_all)
-        return [trace, [bar.get_progress(), bar.get_max_steps()], [[S(r) for r in t.screen()], t.r, t.c],
-                io.fetch_output(), int(getters_ok)]
+            if secs:
+                per_op.append([list(t.screen()), t.r, t.c, secs[0].content])
+        contents = [[[S(l) for l in s.content.split("\n")[:-1]] if s.content else [], s.lines] for s in secs]
+        # get_progress_percent() is a float quotient of two small integers: the reduced fraction names it exactly
+        pct = Fraction(bar.get_progress_percent()).limit_denominator(10 ** 6)
+        return [trace, [bar.get_progress(), bar.get_max_steps(), pct.numerator, pct.denominator], [[S(r) for r in t.screen()], t.r, t.c],
+                io.fetch_output(), 0, termemu.tokens(init), contents, per_op, builtin_formats(ProgressBar)]
     finally:
         time.time = real
 
 
+def builtin_formats(cls):
+    return sorted(set(cls.formats.values()))
+
+
+# ---- the class of the frame theorems, decided independently of the model (Model/Section.v good_lineb / good_textb) ----
+_VIS = {}
+
+
+def visible(line):
+    """the tag-stripped text of one line, by a fresh undecorated formatter; (None, False) when it raises"""
+    if line not in _VIS:
+        from clikit.formatter import PlainFormatter
+        p = PlainFormatter()._formatter
+        try:
+            _VIS[line] = (p.colorize(line), len(p._style_stack.styles) == 0)
+        except Exception:  # noqa
+            _VIS[line] = (None, False)
+    return _VIS[line]
+
+
+def good_line(l):
+    if "\n" in l or "\t" in l or "\x1b" in l or l.endswith("\\"):
+        return False
+    from pastel import Pastel
+    prev = 0
+    for m in Pastel.FULL_TAG_REGEX.finditer(l):
+        if l[prev:m.start()].endswith("\\"):
+            return False
+        prev = m.end()
+    v, balanced = visible(l)
+    return v is not None and balanced
+
+
+def good_case(c):
+    cfg = norm_cfg(c["cfg"])
+    msgs = ([cfg["msg"]] if cfg["msg"] is not None else []) + [o[1] for _, o in c["ops"] if o[0] == 6]
+    texts = ([cfg["below"]] if cfg["below"] is not None else []) + [o[1] for _, o in c["ops"] if o[0] == 7]
+    return all(good_line(m) for m in msgs + [cfg["pc"]]) and all(good_line(l) for t in texts for l in t.split("\n"))
+
+
 def canon_impl(c, o):
     if o and o[0] == "EXC":
-        return o
-    return o[:3]
+        return o[3]
+    return [0, o[5], o[0], o[1], o[2], o[6], int(good_case(c)), int(in_history_class(c))]
 
 
-_FRAME = re.compile(r"^ *(\d+)(?:/(\d+))? \[([=>-]*)\](?: +(\d+)%)?")
+def in_history_class(c):
+    """the premises of the Coq theorems about whole histories (ansi_line_over_histories, section_below_intact_over_histories)
+    as this side expects them to hold: every generated message is good markup that does not end inside a tag and every frame
+    fits the width, so what decides is the format - one line on a plain ANSI output, any on a section"""
+    cfg = norm_cfg(c["cfg"])
+    if is_quiet(cfg["kind"]) or not is_ansi(cfg["kind"]) or is_section(cfg["kind"]):
+        return True
+    return cfg["fmt"] is None or "\n" not in fmt_string(CUSTOM[cfg["fmt"]])
 
 
-def frames_of(c, o):
-    """decode the frames written (text of each non-empty write)"""
+# ---- decoding a frame by its format ----
+_TIME = r"(?:< 1 sec|1 sec|\d+ secs|1 min|\d+ mins|1 hr|\d+ hrs|1 day|\d+ days)"
+
+
+def frame_regex(pieces, msg):
+    rx = ""
+    for p in pieces:
+        k = p[0]
+        if k == 0:
+            rx += " *\n".join(re.escape(part) for part in p[1].split("\n"))     # blanks pad every line of a frame
+        elif k == 1:
+            rx += r" *(?P<cur>\d+)"
+        elif k == 2:
+            rx += r"(?P<max>\d+)"
+        elif k == 3:
+            rx += r"(?P<bar>[=>-]*)"
+        elif k == 4:
+            rx += r" *(?P<pct>\d+) *"
+        elif k in (5, 8):
+            rx += " *" + _TIME + " *"
+        elif k == 6:
+            rx += r" *\d+ *"
+        else:
+            rx += re.escape("%message%" if msg is None else msg)
+    return re.compile(rx + r" *\Z")
+
+
+def text_of(toks):
+    return "".join(chr(t[1]) if t[0] == 0 else ("\n" if t[0] == 1 else "") for t in toks)
+
+
+def rows_of(lines, w):
     out = []
-    for now, toks in o[0]:
-        text = "".join(chr(t[1]) if t[0] == 0 else ("\n" if t[0] == 1 else "") for t in toks)
-        ctl = [t for t in toks if t[0] not in (0, 1)]
-        if toks:
-            out.append((now, text, ctl))
+    for l in lines:
+        out += termemu.wrap_rows(l, w)
     return out
 
 
 def oracle(c, o):
+    cfg = norm_cfg(c["cfg"])
+    kind = cfg["kind"]
+    fmtp = CUSTOM[cfg["fmt"]] if cfg["fmt"] else None
     if o and o[0] == "EXC":
+        if o[1] == "RuntimeError" and cfg["fmt"] in NEEDS_MAX and "maximum number of steps is not set" in o[2] \
+                and (cfg["max"] <= 0 or any(op[0] == 0 and op[1] is not None and op[1] <= 0 for _, op in c["ops"])):
+            return None      # %estimated% / %remaining% on a bar without maximum: the documented refusal
         return "exception:" + o[1]
-    cfg = c["cfg"]
-    if o[3] != "":
+    trace, (step, mx, _pn, _pd), (screen, scr_r, scr_c), stdout, _unused, init, contents, per_op, builtin = o
+    if stdout != "":
         return "wrote-to-standard-output"
-    fr = frames_of(c, o)
-    if cfg["kind"].startswith("quiet"):
-        return "quiet-output-received-bytes" if fr else None
-    step, mx = o[1]
     if step < 0 or (mx > 0 and step > mx):
         return "step-out-of-range"
-    builtin_or_c1 = cfg["fmt"] in (None, "c1")
-    last_draw = None
+    quiet, plain, section = is_quiet(kind), not is_ansi(kind), kind == "section"
+    flc = fmt_string(fmtp).count("\n") if fmtp else 0
+    w = cfg["w"]
+    below = cfg["below"].split("\n") if (is_section(kind) and cfg["below"] is not None) else []
+    msg = cfg["msg"]
     sim_max, sim_step = max(0, cfg["max"]), 0
-    for (now, toks), (dt, op) in zip(o[0], c["ops"]):
+    last_draw = None          # clock value of the previous write of the bar
+    latest = None             # the text of the latest write of the bar (lines), None before the first
+    latest_frame = None       # the decoded latest FRAME (not a clear)
+    nwrites = 0
+    for i, ((now, toks), (dt, op)) in enumerate(zip(trace, c["ops"])):
         # the bookkeeping the property talks about (maximum growth, clamping), restated independently
         if op[0] == 0:
             sim_step = 0
@@ -221,65 +425,97 @@ def oracle(c, o):
         elif op[0] == 5:
             if not sim_max:
                 sim_max = sim_step
-            if not (sim_step == sim_max and cfg["kind"] == "plain"):
-                sim_step = sim_max
-        if not toks:
+            sim_step = sim_max
+        elif op[0] == 6:
+            msg = op[1]
+        elif op[0] == 7:
+            below = below + op[1].split("\n")
+        if section or kind == "quietsection":
+            # the section clause of C15, after every call: the screen is the bar's section on top of the section below
+            scr, r, col, content = per_op[i]
+            own = content.split("\n")[:-1] if content else []
+            stack = rows_of([visible(l)[0] for l in own], w) + rows_of([visible(l)[0] for l in below], w)
+            if scr != stack + [""] or r != len(stack) or col != 0:
+                return "section-below-disturbed-or-stale-rows"
+            if own and len(own) != flc + 1:
+                return "frame-did-not-replace-its-own-lines"
+        if op[0] == 7:
             continue
-        text = "".join(chr(t[1]) if t[0] == 0 else ("\n" if t[0] == 1 else "") for t in toks)
-        ctl = [t for t in toks if t[0] not in (0, 1)]
-        if cfg["kind"] == "plain" and ctl:
-            return "control-code-on-plain-output"
-        if builtin_or_c1 and op[0] != 4:
-            m = _FRAME.match(text.lstrip("\n"))
-            if not m:
-                return "frame-not-well-formed"
-            cur, fmax, bar, pct = m.group(1), m.group(2), m.group(3), m.group(4)
-            if len(bar) != cfg["bw"]:
-                return "bar-segment-width"
-            if int(cur) != sim_step:
-                return "shown-step-is-not-the-current-step"
-            if fmax is not None and int(fmax) > 0:
-                if int(cur) > int(fmax) or int(cur) < 0:
-                    return "shown-step-out-of-range"
-                if pct is not None and int(fmax) > 0 and int(pct) != int(cur) * 100 // int(fmax):
-                    return "shown-percentage-wrong"
-        # throttle: a redraw caused by advancing that does not reach the maximum
-        if op[0] in (1, 2) and last_draw is not None:
-            reached = sim_step == sim_max
-            if not reached and Fraction(now - last_draw, 1000) < Fraction(cfg["min"]):
-                return "redraw-inside-the-minimum-interval"
-        last_draw = now
-    # plain: every frame on its own line
-    if cfg["kind"] == "plain":
-        whole = "".join("".join(chr(t[1]) if t[0] == 0 else "\n" for t in toks) for _, toks in o[0])
-        nfr = sum(1 for _, toks in o[0] if toks)
-        if cfg["fmt"] != "c2" and nfr and len(whole.split("\n")) != nfr:
-            return "plain-frames-not-on-own-lines"
-    # finish: the last call being finish on a non-quiet overwriting output draws the maximum
-    if c["ops"] and c["ops"][-1][1][0] == 5 and cfg["kind"] == "ansi":
-        if not o[0][-1][1]:
-            return "finish-did-not-draw"
-        if step != mx:
-            return "finish-left-step-below-max"
-        screen = [unS(r) for r in o[2][0]]
-        m = _FRAME.match(screen[-1]) if (builtin_or_c1 and screen) else None
-        if m and m.group(2) is not None and int(m.group(2)) > 0 and m.group(4) is not None:
-            if m.group(4) != "100" or m.group(1) != m.group(2):
-                return "finish-not-at-100-percent"
-    # ANSI single-line formats: the terminal line shows exactly the latest frame
-    if cfg["kind"] == "ansi" and cfg["fmt"] != "c2" and fr:
-        last_text = None
-        for (now, toks), (dt, op) in zip(o[0], c["ops"]):
+        if quiet:
             if toks:
-                last_text = "".join(chr(t[1]) for t in toks if t[0] == 0)
-        screen = [unS(r) for r in o[2][0]]
-        if len(screen) != 1 or screen[0].rstrip(" ") != last_text.rstrip(" "):
+                return "quiet-output-received-bytes"
+            continue
+        if op[0] in (1, 2) and sim_max > 0 and sim_step == sim_max and not toks:
+            return "reaching-the-maximum-did-not-draw"
+        if op[0] == 5 and not plain and not toks:
+            return "finish-did-not-draw"
+        if toks:
+            ctl = [t for t in toks if t[0] not in (0, 1)]
+            if plain and ctl:
+                return "control-code-on-plain-output"
+            if section:
+                lines = [visible(l)[0] for l in per_op[i][3].split("\n")[:-1]]
+            else:
+                text = text_of(toks)
+                if plain:
+                    # every frame on its own line: a line break before every frame but the first, none after it
+                    if nwrites > 0 and not text.startswith("\n"):
+                        return "plain-frames-not-on-own-lines"
+                    text = text[1:] if nwrites > 0 else text
+                lines = text.split("\n")
+            if len(lines) != flc + 1:
+                return "plain-frames-not-on-own-lines" if plain else "frame-not-well-formed"
+            nwrites += 1
+            latest = lines
+            if op[0] != 4:
+                vmsg = None if msg is None else visible(msg)[0]
+                cands = [fmtp] if fmtp else [parse_fmt(f) for f in builtin]
+                m = None
+                for pieces in cands:
+                    m = frame_regex(pieces, vmsg).match("\n".join(lines))
+                    if m:
+                        break
+                if not m:
+                    return "frame-not-well-formed"
+                g = m.groupdict()
+                if g.get("bar") is not None and len(g["bar"]) != cfg["bw"]:
+                    return "bar-segment-width"
+                if g.get("cur") is not None and int(g["cur"]) != sim_step:
+                    return "shown-step-is-not-the-current-step"
+                if g.get("max") is not None:
+                    if int(g["max"]) != sim_max:
+                        return "shown-maximum-is-not-the-maximum"
+                    if g.get("cur") is not None and int(g["max"]) > 0 and int(g["cur"]) > int(g["max"]):
+                        return "shown-step-out-of-range"
+                if g.get("pct") is not None and sim_max > 0 and int(g["pct"]) != sim_step * 100 // sim_max:
+                    return "shown-percentage-wrong"
+                latest_frame = g
+                # throttle: a redraw caused by advancing that does not reach the maximum
+                if op[0] in (1, 2) and last_draw is not None and sim_step != sim_max \
+                        and Fraction(now - last_draw, 1000) < Fraction(cfg["min"]):
+                    return "redraw-inside-the-minimum-interval"
+            last_draw = now
+        # finish: the last frame after finish shows the maximum at 100 % (on a plain output it may be the frame drawn when
+        # the maximum was reached: it is not written twice)
+        if op[0] == 5 and sim_max > 0:
+            g = latest_frame
+            if g is None:
+                return "finish-did-not-draw"
+            if (g.get("cur") is not None and int(g["cur"]) != sim_max) or (g.get("pct") is not None and g["pct"] != "100") \
+                    or (g.get("max") is not None and g.get("cur") is not None and g["max"] != g["cur"]):
+                return "finish-not-at-100-percent"
+    if quiet:
+        return None
+    # ANSI: the terminal shows exactly the latest frame, no residue of longer earlier frames
+    if kind == "ansi" and latest is not None:
+        got = [unS(r).rstrip(" ") for r in screen]
+        if got != [l.rstrip(" ") for l in latest]:
             return "terminal-line-is-not-the-latest-frame"
     return None
 
 
 def nontrivial_key(c, o):
-    if o and o[0] != "EXC" and sum(1 for _, toks in o[0] if toks) >= 2:
+    if o and o[0] != "EXC" and sum(1 for (_, toks), (_, op) in zip(o[0], c["ops"]) if toks and op[0] != 7) >= 2:
         return [c["cfg"], c["ops"]]
     return None
 
@@ -288,3 +524,10 @@ def shrink(c):
     ops = c["ops"]
     for i in range(len(ops)):
         yield {"cfg": c["cfg"], "ops": ops[:i] + ops[i + 1:]}
+    cfg = norm_cfg(c["cfg"])
+    for k, v in (("msg", None), ("fmt", None), ("verb", 0), ("rf", None), ("maxs", 1), ("below", None), ("pc", ">")):
+        if cfg[k] != v and not (k == "fmt" and any(o[0] == 6 for _, o in ops)):
+            yield {"cfg": dict(cfg, **{k: v}), "ops": ops}
+    for i, (dt, o) in enumerate(ops):
+        if dt:
+            yield {"cfg": c["cfg"], "ops": ops[:i] + [[0, o]] + ops[i + 1:]}
